@@ -700,6 +700,17 @@ func (g *G) Op() Op {
 		op.Q = q
 	case "query":
 		op.Q = g.Query()
+	case "insertBad", "updateBad", "manyBad":
+		op.D = g.Doc()
+		op.D.H = Hooks{}
+		op.Ref = g.uni(64, "ref")
+		if kind == "manyBad" {
+			op.Items = g.Items(5)
+		}
+		op.Aux = map[string]interface{}{
+			"path": pickU(g, []string{"F64", "F32", "In.F", "Pt.F"}, "badpath"),
+			"val":  pickU(g, []string{"nan", "inf", "-inf"}, "badval"),
+		}
 	case "tick":
 		op.Ms = 100 * (1 + g.uni(12, "tickms"))
 	case "snapshot":
